@@ -318,6 +318,17 @@ def _t(**kw):
 MAXD = "79228162514264337593543950335"
 
 
+def eso_missing_row_witness():
+    """regression case of the fixed defect c454485 (parse_eso_data zipped its per-grant row lists and the zip stopped
+    at the shortest): an exercise confirmation naming two grants, the second without its Comission/Fee row, and the
+    trade confirmation matching its sell-to-cover.  -> ([(path, text)], note that must not silently disappear, note kept)"""
+    two = [_g("1234", "1,000.00"), _g("1235", "90.25", "200", "120.00", "11.00")]
+    eso = _eso(two).replace("        Comission/Fee $11.00\n", "", 1)
+    d = datetime.date(2024, 2, 21).toordinal()
+    tc = _post(td=d, sd=d + 2, qty=35, price="120.00")
+    return [("eso.txt", eso), ("tc.txt", tc)], "Option Grant 1235", "Option Grant 1234"
+
+
 def adversarial_corpus():
     """(label, text) pairs aimed at the regex semantics the model transliterates"""
     out = []
